@@ -40,3 +40,36 @@ func ZZ_C03_cash() {
 	_ = data
 	vSupportSweep("min-distance", e, w)
 }
+
+func zzIsLowerCharset(x byte) bool {
+	in := false
+	for i := 0; i < len(Charset); i++ {
+		in = vOr(in, x == Charset[i])
+	}
+	return in
+}
+
+// ZZ_C03_cash_foreign: substitutions by characters that are not (lower-case) charset symbols -
+// upper-case letters, digits outside the charset, punctuation, non-ASCII - are rejected too.
+// (Substitutions by other charset symbols are the support sweep's job.)
+func ZZ_C03_cash_foreign() {
+	prefix := "bitcoincash"
+	L := vParam("paylen", 34)
+	pay := vSyms("pay", L, 5)
+	cw := cat(pay, createChecksum(prefix, pay))
+	n := L + 8
+	chars := make([]byte, n)
+	cnt := 0
+	for i := 0; i < n; i++ {
+		c := Charset[cw[i]]
+		use := vBool("use")
+		x := vU8("x")
+		vAssume(vImplies(use, !zzIsLowerCharset(x)))
+		chars[i] = vIte8(use, x, c)
+		cnt += int(vIte8(use, 1, 0))
+	}
+	vAssume(cnt >= 1 && cnt <= 5)
+	vReach("in")
+	_, _, err := DecodeCashAddress(prefix + ":" + string(chars))
+	vAssert("foreign-substitution-rejected", err != nil)
+}
